@@ -191,9 +191,65 @@ class EqAll:
         return 1
 
 
+class OddKey:
+    """["O", k, mode]: ordered by k through < and >, but == is unhelpful: mode "all" says equal to
+    everything, mode "raise" raises.  Sorting and min/max only ever need < (or >)."""
+
+    __slots__ = ("k", "mode")
+
+    def __init__(self, k, mode):
+        self.k, self.mode = k, mode
+
+    def __repr__(self):
+        return f"OddKey({self.k},{self.mode})"
+
+    def __lt__(self, other):
+        return self.k < other.k
+
+    def __gt__(self, other):
+        return self.k > other.k
+
+    def __eq__(self, other):
+        if self.mode == "raise":
+            raise GrumpyError("eq")
+        return True
+
+    def __ne__(self, other):
+        if self.mode == "raise":
+            raise GrumpyError("eq")
+        return False
+
+    __hash__ = None
+
+
+class TolKey:
+    """["T", k]: a key equal to every key at distance <= 1: reflexive and symmetric, NOT transitive"""
+
+    __slots__ = ("k",)
+
+    def __init__(self, k):
+        self.k = k
+
+    def __repr__(self):
+        return f"TolKey({self.k})"
+
+    def __eq__(self, other):
+        return isinstance(other, TolKey) and abs(self.k - other.k) <= 1
+
+    def __ne__(self, other):
+        return not self.__eq__(other)
+
+    def __hash__(self):
+        return 0
+
+
 def mat(v):
     """Materialise a value descriptor into a fresh live object."""
     t = v[0]
+    if t == "O":
+        return OddKey(v[1], v[2])
+    if t == "T":
+        return TolKey(v[1])
     if t == "E":
         return EqAll(v[1])
     if t == "W":
@@ -238,9 +294,13 @@ def sig(o):
     if isinstance(o, Grumpy):
         return ("G", o.what, o.uid)
     if isinstance(o, AwaitableItem):
-        return ("W", o.uid)
+        return ("W", _uid(o.uid))
     if isinstance(o, EqAll):
         return ("E", o.uid)
+    if isinstance(o, OddKey):
+        return ("O", o.k, o.mode)
+    if isinstance(o, TolKey):
+        return ("T", o.k)
     if o is None:
         return ("n",)
     tp = type(o)
